@@ -44,6 +44,9 @@ type propCfg struct {
 func d(s string) time.Duration { x, _ := time.ParseDuration(s); return x }
 
 var props = map[string]propCfg{
+	"C12": {Level: "translation_validation",
+		Quick: tierCfg{Checks: 3, Shards: 4, Timeout: d("15m"), ShrinkTime: d("45s")},
+		Thor:  tierCfg{Checks: 12, Shards: 12, Timeout: d("60m"), ShrinkTime: d("180s")}},
 	"C10": {Level: "translation_validation",
 		Quick: tierCfg{Checks: 3, Shards: 4, Timeout: d("15m"), ShrinkTime: d("45s")},
 		Thor:  tierCfg{Checks: 12, Shards: 12, Timeout: d("60m"), ShrinkTime: d("180s")}},
@@ -362,7 +365,21 @@ func run(id string, cfg propCfg, mode string, rest []string) int {
 	passedTotal := 0
 	for _, r := range results {
 		if r.stats == nil {
-			fmt.Printf("INCONCLUSIVE: shard %d produced no stats (err=%v)\n%s\n", r.idx, r.err, tail(r.log, 40))
+			detail := tail(r.log, 40)
+			if i := strings.Index(r.log, "panic: test timed out"); i >= 0 {
+				// a hang: show where the running goroutines are (frames of cog / the harness)
+				var frames []string
+				for _, l := range strings.Split(r.log[i:], "\n") {
+					if strings.HasPrefix(l, "panic:") || strings.HasPrefix(l, "goroutine ") || strings.Contains(l, "grafana/cog") {
+						frames = append(frames, l)
+					}
+					if len(frames) > 60 {
+						break
+					}
+				}
+				detail = strings.Join(frames, "\n")
+			}
+			fmt.Printf("INCONCLUSIVE: shard %d produced no stats (err=%v)\n%s\n", r.idx, r.err, detail)
 			exit = 2
 			continue
 		}
